@@ -28,3 +28,34 @@ func dumpErrSets(repo string) {
 		fmt.Printf("%-28s %s\n", k, e.setName(tn, e.ret[f][i]))
 	}
 }
+
+// dumpFSM prints the extracted table of one automaton (debug aid: `sipsp-sa fsm <func>`).
+func dumpFSM(repo, fnName string) {
+	p, err := loadProg(repo, "debug")
+	if err != nil {
+		fmt.Println(err)
+		return
+	}
+	c := &Ctx{Prog: p}
+	e := newErrAnalysis(p)
+	spec, ok := fsmSpecFor(c, fnName)
+	if !ok {
+		fmt.Println("no spec for", fnName)
+		return
+	}
+	res := extractFSM(c, e, spec)
+	fmt.Printf("%s: %d states, %d transitions, %d post paths, %d steps capped=%v\n", fnName, len(res.states), len(res.trans), len(res.post), res.steps, res.capped)
+	for _, t := range res.grouped(res.trans) {
+		to := res.name(t.To)
+		if t.Exit != "" {
+			to = "RETURN " + e.setName(errTypeOf(spec.fn), t.Verd) + " (state " + res.name(t.To) + ")"
+		}
+		fmt.Printf("  %-22s %-28s -> %-40s calls=%v conds=%v locals=%v stores=%v\n", res.name(t.From), t.Bytes.String(), to, t.Calls, t.Conds, t.Locals, t.Stores)
+	}
+	fmt.Println("POST (buffer exhausted):")
+	for _, t := range res.grouped(res.post) {
+		fmt.Printf("  %-22s -> RETURN %s (state %s) calls=%v conds=%v\n", res.name(t.From), e.setName(errTypeOf(spec.fn), t.Verd), res.name(t.To), t.Calls, t.Conds)
+	}
+}
+
+func errTypeOf(f interface{ String() string }) string { return "ErrorHdr" }
